@@ -227,6 +227,7 @@ type Options struct {
 
 	// CompactionL0Trigger defines number of 'sorted table' at level-0 that will
 	// trigger compaction.
+	// Values below one select the default.
 	//
 	// The default value is 4.
 	CompactionL0Trigger int
@@ -268,6 +269,8 @@ type Options struct {
 	CompactionTotalSize int
 
 	// CompactionTotalSizeMultiplier defines multiplier for CompactionTotalSize.
+	// Values below one are read as one: the limits must not shrink with the
+	// level.
 	//
 	// The default value is 10.
 	CompactionTotalSizeMultiplier float64
@@ -354,6 +357,7 @@ type Options struct {
 	// sampling of an iterator. The samples will be used to determine when
 	// compaction should be triggered.
 	// Use negative value to disable iterator sampling.
+	// Values above half of the largest int are read as that bound.
 	// The iterator sampling is disabled if DisableSeeksCompaction is true.
 	//
 	// The default is 1MiB.
@@ -400,6 +404,8 @@ type Options struct {
 
 	// WriteL0StopTrigger defines number of 'sorted table' at level-0 that will
 	// pause write.
+	// It is never taken to be lower than CompactionL0Trigger: a paused writer
+	// waits for a level-0 compaction.
 	//
 	// The default value is 12.
 	WriteL0PauseTrigger int
@@ -411,6 +417,7 @@ type Options struct {
 	WriteL0SlowdownTrigger int
 
 	// FilterBaseLg is the log size for filter block to create a bloom filter.
+	// Values above 63 are read as 63.
 	//
 	// The default value is 11(as well as 2KB)
 	FilterBaseLg int
